@@ -302,6 +302,11 @@ def forms(e):
     for n, f, _ in elem_views(e):
         fs.append((n, f'Push::push(self, {f("v")})'))
     fs += array_forms(e)
+    if e[0] == 'cols' and ref_ok(e[1]):
+        # a wrapped iterator over a read item of ANOTHER region: the row stored in a scratch SliceRegion and its
+        # ReadSlice iterator pushed (that iterator's size_hint is the default (0, None))
+        fs.append(('iter_of_read_slice', f'{{ let mut tmp = <SliceRegion<{rust_type(e[1])}>>::default(); let i = tmp.push(v); '
+                   'let it = tmp.index(i); Push::push(self, PushIter(it.iter())) }'))
     return fs
 
 def array_forms(e):
